@@ -148,9 +148,14 @@ U_C06_3 == [k \in 1..((NTrans(3) * NTrans(3) * NTrans(3)) \div 61) |-> Graph3((k
 U_C06 == TLCEval(U_C06_1 \o U_C06_2 \o U_C06_3)
 
 \* ---- C09: line and column ----------------------------------------------------------------
-\* atoms: 1 = x (1 byte), 2 = U+00E9 (2 bytes), 3 = newline, 4 = a (never matched)
-Syms_C09 == << SymX, SymE2, SymNL, SymA >>
-C09Pats == << Pat(Plus(A1), 1), Pat(A2, 2), Pat(A3, 0), Pat(Cat(A1, A3), 4), Pat(Plus(A3), 6) >>
+\* atoms: 1 = x (1 byte), 2 = U+040A (2 bytes; its low byte is the line feed's), 3 = newline,
+\* 4 = a (never matched)
+SymLowLF == [ch |-> "U+040A", n |-> 2, nl |-> FALSE]
+Syms_C09 == << SymX, SymLowLF, SymNL, SymA >>
+\* the last two patterns span line breaks and overlap, so that after a reset into the middle of a
+\* token another token can straddle scanned and not yet scanned lines
+C09Pats == << Pat(Plus(A1), 1), Pat(A2, 2), Pat(A3, 0), Pat(Cat(A1, A3), 4), Pat(Plus(A3), 6),
+              Pat(Cat(A3, A1), 8), Pat(Cat(A1, Cat(A3, A1)), 9) >>
 \* all non-empty subsets of the five patterns, in the listed order
 SubSeqOf(S, k) == SelectSeq([j \in DOMAIN S |-> <<j, S[j]>>], LAMBDA e : (k \div Pow(2, e[1] - 1)) % 2 = 1)
 U_C09 == TLCEval([k \in 1..(Pow(2, Len(C09Pats)) - 1) |->
